@@ -268,7 +268,7 @@ theorem recordTail_eval (ctx : Ctx) (owner : List UInt8) (startLine : Nat) (sep 
 /-! ### whole records -/
 
 /-- the parser's context as the specification sees it -/
-def toSCtx (ctx : Ctx) : SCtx := ⟨ctx.prevOwner, ctx.prevTtl, ctx.prevClass, ctx.defaultTtl⟩
+def toSCtx (ctx : Ctx) : SCtx := ⟨ctx.origin, ctx.prevOwner, ctx.prevTtl, ctx.prevClass, ctx.defaultTtl⟩
 
 structure WFOwnerAbs (ls : List PLabel) : Prop where
   ne : ls ≠ []
@@ -277,13 +277,20 @@ structure WFOwnerAbs (ls : List PLabel) : Prop where
   total : (flatLabels (ls.map labelOctets)).length + 1 ≤ 255
   notDollar : (renderAbsName ls).head? ≠ some 36
 
+structure WFOwnerRel (ls : List PLabel) (l : PLabel) : Prop where
+  forms : ∀ l' ∈ ls ++ [l], ∀ x ∈ l', nameFormOK x.1 x.2 = true
+  labels : LabelsOK ((ls ++ [l]).map labelOctets)
+  notAt : renderLabels (ls ++ [l]) ≠ [64]
+  notDollar : (renderLabels (ls ++ [l])).head? ≠ some 36
+
 /-- well-formed presentation of a record (what the writer must respect) -/
 structure WFRecord (p : PRecord) : Prop where
   sep_ne : p.sep ≠ []
   sep_ws : ∀ x ∈ p.sep, isWs x = true
   trail_ws : ∀ x ∈ p.trail, isWs x = true
   comment_ok : commentOK p.comment
-  owner_ok : ∀ ls, p.owner = .abs ls → WFOwnerAbs ls
+  abs_ok : ∀ ls, p.owner = .abs ls → WFOwnerAbs ls
+  rel_ok : ∀ ls l, p.owner = .rel ls l → WFOwnerRel ls l
   ttl_ok : ∀ t, p.ttl = some t → t ≤ 4294967295
   cls_ok : ∀ k, p.cls = some k → k ≤ 65535
   ty_ok : p.ty ≤ 65535 ∧ p.ty ≠ 10 ∧ p.ty ≠ 41 ∧ p.ty ≠ 250
@@ -299,12 +306,14 @@ theorem dropWhile_ws (sep : List UInt8) (hsep : ∀ x ∈ sep, isWs x = true) (c
 
 theorem renderRecord_eq (p : PRecord) (r : List UInt8) :
     renderRecord p ++ r =
-      (match p.owner with | .same => [] | .abs ls => renderAbsName ls) ++
+      ownerText p.owner ++
         (p.sep ++ recordBody p.sep p.ttl p.cls p.ty p.rdata (p.trail ++ (p.comment ++ 10 :: r))) := by
   unfold renderRecord recordBody ttlText clsText
-  cases p.owner <;> cases p.ttl <;> cases p.cls <;> simp
+  cases p.ttl <;> cases p.cls <;> simp
 
-theorem nameNewlines_eq (ls : List PLabel) : nameNewlines ls = ownerLines (.abs ls) := rfl
+theorem nameNewlines_eq (ls : List PLabel) : nameNewlines ls = labelLines ls := rfl
+
+theorem wireLabels_eq (ls : List (List UInt8)) : wireLabels ls = flatLabels ls := rfl
 
 theorem denoteRecord_some {c : SCtx} {line : Nat} {p : PRecord} {sr : SRecord} {sc' : SCtx}
     (h : denoteRecord c line p = some (sr, sc')) :
@@ -318,18 +327,73 @@ theorem denoteRecord_some {c : SCtx} {line : Nat} {p : PRecord} {sr : SRecord} {
     exact ⟨owner, tv, cv, h1, h2, h3, h.1.symm, h.2.symm⟩
   · cases h
 
-/-- **One record.**  A well-formed record line, in a context in which it denotes a record whose
-    RDATA is valid for its class and type, parses to exactly that record, at the line where it
-    starts; the parser's context afterwards is the denoted one. -/
-theorem parseLine_record (ctx : Ctx) (p : PRecord) (hwf : WFRecord p) (line : Nat) (r : List UInt8)
-    (sr : SRecord) (sc' : SCtx) (hden : denoteRecord (toSCtx ctx) line p = some (sr, sc'))
+/-- a record line whose owner field is a name: whatever `parse_name` makes of the owner text is
+    the owner; the rest is the record tail -/
+theorem parseLine_named (ctx : Ctx) (T : List UInt8) (c0 : UInt8) (t0 : List UInt8) (hT : T = c0 :: t0)
+    (hc0 : fieldStart c0) (h36 : (c0 == 36) = false) (w : List UInt8) (k line : Nat)
+    (hparse : ∀ rest, atFieldEnd rest = true →
+      parseName ctx.origin ⟨T ++ rest, line, false⟩ = .ok (w, ⟨rest, line + k, false⟩))
+    (sep : List UInt8) (hne : sep ≠ []) (hsep : ∀ x ∈ sep, isWs x = true) (ttl cls : Option Nat)
+    (ht : ∀ t, ttl = some t → t ≤ 4294967295) (hk : ∀ k, cls = some k → k ≤ 65535) (ty : Nat)
+    (hty : ty ≤ 65535) (h10 : ty ≠ 10) (h41 : ty ≠ 41) (h250 : ty ≠ 250) (rd : List UInt8)
+    (hlen : rd.length ≤ 65535) (tv cv : Nat) (htv : ttlChoice ctx ttl = some tv)
+    (hcv : clsChoice ctx cls = some cv) (hvalid : validate cv ty rd = .ok ())
+    (ws cmt r : List UInt8) (hws : ∀ x ∈ ws, isWs x = true) (hc : commentOK cmt) :
+    parseLine ctx ⟨T ++ (sep ++ recordBody sep ttl cls ty rd (ws ++ (cmt ++ 10 :: r))), line, false⟩ =
+      .ok ((some (.record line ⟨w, tv, cv, ty, rd⟩),
+            { ctx with prevOwner := some w, prevTtl := some tv, prevClass := some cv }),
+           ⟨r, line + k + 1, false⟩) := by
+  obtain ⟨c, t, hbody, hstart, _⟩ := recordBody_head sep ttl cls ty rd (ws ++ (cmt ++ 10 :: r))
+  have hc0ws : isWs c0 = false := fieldStart_not_ws hc0
+  have hname := hparse (sep ++ recordBody sep ttl cls ty rd (ws ++ (cmt ++ 10 :: r))) (atFieldEnd_sep sep _ hne hsep)
+  subst hT
+  unfold parseLine
+  simp only [List.cons_append, h36, Bool.false_eq_true, ↓reduceIte]
+  rw [parseRecordOrEmpty_eq]
+  have hskipws : ∀ rest', skipWhitespace ⟨c0 :: rest', line, false⟩ = (false, ⟨c0 :: rest', line, false⟩) := by
+    intro rest'
+    unfold skipWhitespace
+    simp [hc0ws, List.dropWhile]
+  simp only [hskipws, fieldOrEol_at_field true c0 _ hc0 line false]
+  have hb : ((FieldOrEol.Field == FieldOrEol.Eol) = true) = False := by simp
+  simp only [hb, ↓reduceIte]
+  unfold parseRecordRest
+  simp only [Bool.false_eq_true, ↓reduceIte, bind, P.bind, pName]
+  simp only [List.cons_append] at hname
+  simp only [hname]
+  have hskip := skipToNextField_gap .ExpectedTtlClassOrType sep hsep c t hstart (line + k) false
+  have htail := recordTail_eval ctx w line sep hne hsep ttl cls ht hk ty hty h10 h41 h250 rd hlen tv cv htv hcv
+    hvalid ws cmt r hws hc (line + k)
+  rw [hbody] at htail ⊢
+  simp only [bind, P.bind, skip_nil _ c t hstart] at htail
+  simp only [hskip]
+  exact htail
+
+theorem labels_head {ls : List PLabel} {l : PLabel} (hforms : ∀ l' ∈ ls ++ [l], ∀ x ∈ l', nameFormOK x.1 x.2 = true)
+    (hLs : LabelsOK ((ls ++ [l]).map labelOctets)) :
+    ∃ c t, renderLabels (ls ++ [l]) = c :: t ∧ fieldStart c := by
+  rw [renderLabels_snoc]
+  cases ls with
+  | nil =>
+    have hne : l ≠ [] := label_nonempty (hLs (labelOctets l) (by simp)).1
+    obtain ⟨c, t, hct, _, hend⟩ := renderLabel_head hne (hforms l (by simp))
+    exact ⟨c, t, by simp [hct], hend⟩
+  | cons x ls' =>
+    have hne : x ≠ [] := label_nonempty (hLs (labelOctets x) (by simp)).1
+    obtain ⟨c, t, hct, _, hend⟩ := renderLabel_head hne (hforms x (by simp))
+    exact ⟨c, _, by simp [hct]; rfl, hend⟩
+
+/-- **One record.**  A well-formed record line, in a well-formed context in which it denotes a
+    record whose RDATA is valid for its class and type, parses to exactly that record, at the
+    line where it starts; the parser's context afterwards is the denoted one. -/
+theorem parseLine_record (ctx : Ctx) (hctx : CtxWF ctx) (p : PRecord) (hwf : WFRecord p) (line : Nat)
+    (r : List UInt8) (sr : SRecord) (sc' : SCtx) (hden : denoteRecord (toSCtx ctx) line p = some (sr, sc'))
     (hvalid : validate sr.cls p.ty p.rdata = .ok ()) :
     ∃ ctx', parseLine ctx ⟨renderRecord p ++ r, line, false⟩ =
         .ok ((some (.record sr.line ⟨sr.owner, sr.ttl, sr.cls, sr.ty, sr.rdata⟩), ctx'),
              ⟨r, line + ownerLines p.owner + 1, false⟩) ∧
-      toSCtx ctx' = sc' ∧ ctx'.origin = ctx.origin := by
-  obtain ⟨hne, hsep, htrail, hcmt, hown, httl, hcls, ⟨hty, h10, h41, h250⟩, hrd⟩ := hwf
-  -- what the record denotes
+      toSCtx ctx' = sc' := by
+  obtain ⟨hne, hsep, htrail, hcmt, habs, hrel, httl, hcls, ⟨hty, h10, h41, h250⟩, hrd⟩ := hwf
   obtain ⟨owner, tv, cv, howner, htv, hcv, rfl, rfl⟩ := denoteRecord_some hden
   have htv' : ttlChoice ctx p.ttl = some tv := by
     unfold ttlOf at htv
@@ -350,7 +414,7 @@ theorem parseLine_record (ctx : Ctx) (p : PRecord) (hwf : WFRecord p) (line : Na
   cases hp : p.owner with
   | same =>
     simp only [hp, toSCtx] at howner
-    simp only [List.nil_append, ownerLines, Nat.add_zero]
+    simp only [ownerText, List.nil_append, ownerLines, Nat.add_zero]
     -- the line starts with blanks: same owner as before
     obtain ⟨x, sep', hsep'⟩ : ∃ x sep', p.sep = x :: sep' := by
       cases hs : p.sep with
@@ -360,7 +424,7 @@ theorem parseLine_record (ctx : Ctx) (p : PRecord) (hwf : WFRecord p) (line : Na
     have hx36 : (x == 36) = false := by
       simp only [isWs, Bool.or_eq_true, beq_iff_eq] at hx
       rcases hx with rfl | rfl <;> decide
-    refine ⟨{ ctx with prevOwner := some owner, prevTtl := some tv, prevClass := some cv }, ?_, by simp [toSCtx], rfl⟩
+    refine ⟨{ ctx with prevOwner := some owner, prevTtl := some tv, prevClass := some cv }, ?_, by simp [toSCtx]⟩
     have esep : p.sep ++ recordBody p.sep p.ttl p.cls p.ty p.rdata (p.trail ++ (p.comment ++ 10 :: r)) =
         x :: (sep' ++ recordBody p.sep p.ttl p.cls p.ty p.rdata (p.trail ++ (p.comment ++ 10 :: r))) := by
       conv => lhs; arg 1; rw [hsep']
@@ -388,55 +452,59 @@ theorem parseLine_record (ctx : Ctx) (p : PRecord) (hwf : WFRecord p) (line : Na
   | abs ls =>
     simp only [hp, Option.some.injEq] at howner
     subst howner
-    obtain ⟨lne, lforms, llabels, ltotal, ldollar⟩ := hown ls hp
-    simp only
-    -- the first octet of the owner
+    obtain ⟨lne, lforms, llabels, ltotal, ldollar⟩ := habs ls hp
     obtain ⟨l, ls', rfl⟩ : ∃ l ls', ls = l :: ls' := by
       cases ls with
       | nil => exact absurd rfl lne
       | cons l ls' => exact ⟨l, ls', rfl⟩
-    have hlne : l ≠ [] := by
-      have := (llabels (labelOctets l) (by simp)).1
-      intro h; subst h; simp [labelOctets] at this
+    have hlne : l ≠ [] := label_nonempty (llabels (labelOctets l) (by simp)).1
     obtain ⟨c0, t0, hct0, _, hc0⟩ := renderLabel_head hlne (lforms l (by simp))
-    have habs : renderAbsName (l :: ls') = c0 :: (t0 ++ 46 :: (ls'.flatMap fun l => renderLabel l ++ [46])) := by
+    have habsT : renderAbsName (l :: ls') = c0 :: (t0 ++ 46 :: (ls'.flatMap fun l => renderLabel l ++ [46])) := by
       simp [renderAbsName, hct0]
     have hc036 : (c0 == 36) = false := by
-      rw [habs] at ldollar
+      rw [habsT] at ldollar
       simpa using ldollar
-    have hc0ws : isWs c0 = false := fieldStart_not_ws hc0
-    refine ⟨{ ctx with prevOwner := some (wireName ((l :: ls').map labelOctets)), prevTtl := some tv, prevClass := some cv },
-      ?_, by simp [toSCtx], rfl⟩
-    unfold parseLine
-    simp only [habs, List.cons_append, hc036, Bool.false_eq_true, ↓reduceIte]
-    rw [parseRecordOrEmpty_eq]
-    have hskipws : ∀ rest', skipWhitespace ⟨c0 :: rest', line, false⟩ = (false, ⟨c0 :: rest', line, false⟩) := by
-      intro rest'
-      unfold skipWhitespace
-      simp [hc0ws, List.dropWhile]
-    simp only [hskipws, fieldOrEol_at_field true c0 _ hc0 line false]
-    have hb : ((FieldOrEol.Field == FieldOrEol.Eol) = true) = False := by simp
-    simp only [hb, ↓reduceIte]
-    unfold parseRecordRest
-    simp only [Bool.false_eq_true, ↓reduceIte, bind, P.bind, pName]
-    have hname := parseName_abs ctx.origin (l :: ls') lne lforms llabels ltotal
-      (p.sep ++ recordBody p.sep p.ttl p.cls p.ty p.rdata (p.trail ++ (p.comment ++ 10 :: r)))
-      (atFieldEnd_sep p.sep _ hne hsep) line false
-    rw [habs] at hname
-    simp only [List.cons_append, List.append_assoc] at hname ⊢
-    simp only [hname]
-    have hskip := skipToNextField_gap .ExpectedTtlClassOrType p.sep hsep c t hstart
-      (line + nameNewlines (l :: ls')) false
-    have htail := recordTail_eval ctx (wireName ((l :: ls').map labelOctets)) line p.sep hne hsep p.ttl p.cls httl
-      hcls p.ty hty h10 h41 h250 p.rdata hrd tv cv htv' hcv' hvalid p.trail p.comment r htrail hcmt
-      (line + nameNewlines (l :: ls'))
-    rw [hbody] at htail ⊢
-    simp only [bind, P.bind, skip_nil _ c t hstart] at htail
-    simp only [hskip]
-    rw [nameNewlines_eq] at htail ⊢
-    exact htail
+    refine ⟨_, parseLine_named ctx (renderAbsName (l :: ls')) c0 _ habsT hc0 hc036 _ (labelLines (l :: ls')) line
+      (fun rest hrest => by
+        have := parseName_abs ctx.origin (l :: ls') lne lforms llabels ltotal rest hrest line false
+        rw [nameNewlines_eq] at this; exact this)
+      p.sep hne hsep p.ttl p.cls httl hcls p.ty hty h10 h41 h250 p.rdata hrd tv cv htv' hcv' hvalid
+      p.trail p.comment r htrail hcmt, by simp [toSCtx]⟩
+  | rel ls l =>
+    simp only [hp, toSCtx] at howner
+    obtain ⟨lforms, llabels, lnotat, ldollar⟩ := hrel ls l hp
+    cases ho : ctx.origin with
+    | none => simp [ho] at howner
+    | some o =>
+      simp only [ho] at howner
+      split at howner
+      · next hfit =>
+        simp only [Option.some.injEq] at howner
+        subst howner
+        obtain ⟨c0, t0, hct0, hc0⟩ := labels_head lforms llabels
+        have hc036 : (c0 == 36) = false := by
+          rw [hct0] at ldollar
+          simpa using ldollar
+        have hoWF : NameWF o := hctx.1 o ho
+        refine ⟨_, parseLine_named ctx (renderLabels (ls ++ [l])) c0 t0 hct0 hc0 hc036 _ (labelLines (ls ++ [l])) line
+          (fun rest hrest => by
+            have := parseName_rel o hoWF ls l lforms llabels (by rw [wireLabels_eq] at hfit; exact hfit) lnotat rest
+              hrest line false
+            rw [nameNewlines_eq] at this
+            rw [ho, wireLabels_eq]; exact this)
+          p.sep hne hsep p.ttl p.cls httl hcls p.ty hty h10 h41 h250 p.rdata hrd tv cv htv' hcv' hvalid
+          p.trail p.comment r htrail hcmt, by simp [toSCtx]⟩
+      · cases howner
+  | atSign =>
+    simp only [hp, toSCtx] at howner
+    refine ⟨_, parseLine_named ctx [64] 64 [] rfl (.inr (by decide)) (by decide) owner 0 line
+      (fun rest hrest => by
+        rw [howner]
+        exact parseName_at owner rest hrest line false)
+      p.sep hne hsep p.ttl p.cls httl hcls p.ty hty h10 h41 h250 p.rdata hrd tv cv htv' hcv' hvalid
+      p.trail p.comment r htrail hcmt, by simp [toSCtx]⟩
 
-/-! ### blank lines -/
+/-! ### blank lines and directives -/
 
 theorem parseLine_blank (ctx : Ctx) (ws cmt r : List UInt8) (hws : ∀ x ∈ ws, isWs x = true)
     (hc : commentOK cmt) (line : Nat) :
@@ -456,7 +524,6 @@ theorem parseLine_blank (ctx : Ctx) (ws cmt r : List UInt8) (hws : ∀ x ∈ ws,
   unfold parseLine
   simp only [hct, hc36, Bool.false_eq_true, ↓reduceIte]
   rw [parseRecordOrEmpty_eq, ← hct]
-  -- after the blanks: the comment or the newline
   have hdrop : (ws ++ (cmt ++ 10 :: r)).dropWhile isWs = cmt ++ 10 :: r := by
     rcases hc with rfl | ⟨body, rfl, _⟩
     · exact dropWhile_ws ws hws 10 r (by decide)
@@ -469,6 +536,85 @@ theorem parseLine_blank (ctx : Ctx) (ws cmt r : List UInt8) (hws : ∀ x ∈ ws,
   simp only [List.nil_append] at this
   simp only [this, beq_self_eq_true, ↓reduceIte, pure, P.pure]
 
+theorem origin_bytes : "$ORIGIN".toUTF8.toList = [36, 79, 82, 73, 71, 73, 78] := by decide +kernel
+theorem ttl_bytes : "$TTL".toUTF8.toList = [36, 84, 84, 76] := by decide +kernel
+
+/-- `$ORIGIN <absolute name>` sets the origin -/
+theorem parseLine_origin (ctx : Ctx) (ls : List PLabel) (hls : WFOwnerAbs ls) (sep ws cmt r : List UInt8)
+    (hne : sep ≠ []) (hsep : ∀ x ∈ sep, isWs x = true) (hws : ∀ x ∈ ws, isWs x = true) (hc : commentOK cmt)
+    (line : Nat) :
+    parseLine ctx ⟨[36, 79, 82, 73, 71, 73, 78] ++ (sep ++ (renderAbsName ls ++ (ws ++ (cmt ++ 10 :: r)))), line, false⟩ =
+      .ok ((none, { ctx with origin := some (wireName (ls.map labelOctets)) }),
+           ⟨r, line + labelLines ls + 1, false⟩) := by
+  obtain ⟨lne, lforms, llabels, ltotal, _⟩ := hls
+  obtain ⟨l, ls', rfl⟩ : ∃ l ls', ls = l :: ls' := by
+    cases ls with
+    | nil => exact absurd rfl lne
+    | cons l ls' => exact ⟨l, ls', rfl⟩
+  have hlne : l ≠ [] := label_nonempty (llabels (labelOctets l) (by simp)).1
+  obtain ⟨c0, t0, hct0, _, hc0⟩ := renderLabel_head hlne (lforms l (by simp))
+  have habsT : renderAbsName (l :: ls') = c0 :: (t0 ++ 46 :: (ls'.flatMap fun l => renderLabel l ++ [46])) := by
+    simp [renderAbsName, hct0]
+  have hEnd := atFieldEnd_eol ws cmt r hws hc
+  have hname := parseName_abs ctx.origin (l :: ls') lne lforms llabels ltotal _ hEnd line false
+  rw [nameNewlines_eq] at hname
+  have hexp : expectFieldCI [36, 79, 82, 73, 71, 73, 78]
+      ⟨[36, 79, 82, 73, 71, 73, 78] ++ (sep ++ (renderAbsName (l :: ls') ++ (ws ++ (cmt ++ 10 :: r)))), line, false⟩ =
+      (true, ⟨sep ++ (renderAbsName (l :: ls') ++ (ws ++ (cmt ++ 10 :: r))), line, false⟩) := by
+    unfold expectFieldCI expectFieldImpl
+    simp [eqIgnoreCase, atFieldEnd_sep sep _ hne hsep]
+  have hskip := skipToNextField_gap .ExpectedName sep hsep c0
+    (t0 ++ 46 :: (ls'.flatMap fun l => renderLabel l ++ [46]) ++ (ws ++ (cmt ++ 10 :: r))) hc0 line false
+  unfold parseLine
+  simp only [List.cons_append, List.nil_append, beq_self_eq_true, ↓reduceIte]
+  unfold parseDirective
+  simp only [bind, P.bind, liftB, origin_bytes]
+  simp only [List.cons_append, List.nil_append] at hexp
+  simp only [hexp, ↓reduceIte]
+  unfold parseOriginDirective
+  rw [habsT] at hname ⊢
+  simp only [List.cons_append, List.append_assoc] at hskip hname ⊢
+  simp only [bind, P.bind, hskip, pName, hname, expectEol_eol ws cmt r hws hc, pure, P.pure]
+
+/-- `$TTL <decimal>` sets the default TTL -/
+theorem parseLine_ttl (ctx : Ctx) (n : Nat) (hn : n ≤ 4294967295) (sep ws cmt r : List UInt8)
+    (hne : sep ≠ []) (hsep : ∀ x ∈ sep, isWs x = true) (hws : ∀ x ∈ ws, isWs x = true) (hc : commentOK cmt)
+    (line : Nat) :
+    parseLine ctx ⟨[36, 84, 84, 76] ++ (sep ++ (decimal n ++ (ws ++ (cmt ++ 10 :: r)))), line, false⟩ =
+      .ok ((none, { ctx with defaultTtl := some (ttlFrom n) }), ⟨r, line + 1, false⟩) := by
+  obtain ⟨d, ds, hd, hdstart⟩ := decimal_head n
+  have hEnd := atFieldEnd_eol ws cmt r hws hc
+  have hcmp : ∀ X : List UInt8, eqIgnoreCase (List.take 7 (36 :: 84 :: 84 :: 76 :: X)) [36, 79, 82, 73, 71, 73, 78] = false := by
+    intro X; simp [eqIgnoreCase, lowerU8]
+  have hnot : (expectFieldCI [36, 79, 82, 73, 71, 73, 78]
+      ⟨[36, 84, 84, 76] ++ (sep ++ (decimal n ++ (ws ++ (cmt ++ 10 :: r)))), line, false⟩) =
+      (false, ⟨[36, 84, 84, 76] ++ (sep ++ (decimal n ++ (ws ++ (cmt ++ 10 :: r)))), line, false⟩) := by
+    unfold expectFieldCI expectFieldImpl
+    simp only [List.cons_append, List.nil_append]
+    split
+    · rfl
+    · simp only [show ([36, 79, 82, 73, 71, 73, 78] : List UInt8).length = 7 from rfl, hcmp, Bool.false_and,
+        Bool.false_eq_true, ↓reduceIte]
+  have hexp : expectFieldCI [36, 84, 84, 76]
+      ⟨[36, 84, 84, 76] ++ (sep ++ (decimal n ++ (ws ++ (cmt ++ 10 :: r)))), line, false⟩ =
+      (true, ⟨sep ++ (decimal n ++ (ws ++ (cmt ++ 10 :: r))), line, false⟩) := by
+    unfold expectFieldCI expectFieldImpl
+    simp [eqIgnoreCase, atFieldEnd_sep sep _ hne hsep]
+  have hskip := skipToNextField_gap .ExpectedTtl sep hsep d (ds ++ (ws ++ (cmt ++ 10 :: r))) hdstart line false
+  have hread := readField_decimal 4294967295 n hn (by omega) .InvalidTtl _ hEnd line false
+  unfold parseLine
+  simp only [List.cons_append, List.nil_append, beq_self_eq_true, ↓reduceIte]
+  unfold parseDirective
+  simp only [bind, P.bind, liftB, origin_bytes, ttl_bytes]
+  simp only [List.cons_append, List.nil_append] at hnot hexp
+  simp only [hnot, Bool.false_eq_true, ↓reduceIte]
+  simp only [bind, P.bind, liftB, hexp, ↓reduceIte]
+  unfold parseTtlDirective
+  rw [hd] at hread ⊢
+  simp only [List.cons_append, List.append_assoc] at hskip hread ⊢
+  simp only [bind, P.bind, hskip, show parseU32 = parseUInt 4294967295 from rfl, hread,
+    expectEol_eol ws cmt r hws hc, pure, P.pure]
+
 /-! ### whole files -/
 
 theorem collect_item {p p' : Parser} {i : Item} (hn : p.next = (some (.item i), p'))
@@ -478,15 +624,15 @@ theorem collect_item {p p' : Parser} {i : Item} (hn : p.next = (some (.item i), 
 theorem collect_none {p p' : Parser} (hn : p.next = (none, p')) : collect p = [] := by
   rw [collect, hn]
 
-/-- two reader states from which `parse_lines_until_returnable_data_found` behaves the same
-    yield the same items -/
-theorem collect_of_untilData_eq {ctx : Ctx} {st1 st2 : St} (h : untilData ctx st1 = untilData ctx st2)
-    (hctx : CtxWF ctx) (hlen : st2.inp.length ≤ st1.inp.length) :
-    collect ⟨false, st1, ctx⟩ = collect ⟨false, st2, ctx⟩ := by
-  have g := next_spec (p := ⟨false, st2, ctx⟩) hctx
+/-- two reader states (and contexts) from which `parse_lines_until_returnable_data_found` behaves
+    the same yield the same items -/
+theorem collect_of_untilData_eq {ctx1 ctx2 : Ctx} {st1 st2 : St} (h : untilData ctx1 st1 = untilData ctx2 st2)
+    (hctx : CtxWF ctx2) (hlen : st2.inp.length ≤ st1.inp.length) :
+    collect ⟨false, st1, ctx1⟩ = collect ⟨false, st2, ctx2⟩ := by
+  have g := next_spec (p := ⟨false, st2, ctx2⟩) hctx
   rw [collect, collect]
   simp only [Parser.next, Bool.false_eq_true, ↓reduceIte, h] at g ⊢
-  cases hu : untilData ctx st2 with
+  cases hu : untilData ctx2 st2 with
   | ok r =>
     obtain ⟨⟨it?, ctx'⟩, st'⟩ := r
     rw [hu] at g
@@ -500,35 +646,43 @@ theorem collect_of_untilData_eq {ctx : Ctx} {st1 st2 : St} (h : untilData ctx st
   | err e => simp [Parser.next]
   | panic => simp [Parser.next]
 
-theorem untilData_blank (ctx : Ctx) (ws cmt R : List UInt8) (hws : ∀ x ∈ ws, isWs x = true)
-    (hc : commentOK cmt) (line : Nat) :
-    untilData ctx ⟨ws ++ (cmt ++ 10 :: R), line, false⟩ = untilData ctx ⟨R, line + 1, false⟩ := by
-  have hline := parseLine_blank ctx ws cmt R hws hc line
-  have hlt : R.length < (ws ++ (cmt ++ 10 :: R)).length := by simp; omega
+/-- a line that yields nothing is stepped over -/
+theorem untilData_skip {ctx ctx' : Ctx} {st st' : St} (hline : parseLine ctx st = .ok ((none, ctx'), st'))
+    (hlt : st'.inp.length < st.inp.length) : untilData ctx st = untilData ctx' st' := by
   rw [untilData]
-  cases hw : ws ++ (cmt ++ 10 :: R) with
-  | nil => rw [hw] at hlt; simp at hlt
+  cases hi : st.inp with
+  | nil => rw [hi] at hlt; simp at hlt
   | cons c t =>
-    simp only
-    rw [← hw, hline]
-    simp only [hlt, ↓reduceIte]
+    rw [hi] at hlt
+    simp only; rw [hline]; simp only [hlt, ↓reduceIte]
 
 theorem next_of_untilData {ctx ctx' : Ctx} {st st' : St} {i : Item}
     (h : untilData ctx st = .ok ((some i, ctx'), st')) :
     (⟨false, st, ctx⟩ : Parser).next = (some (.item i), ⟨false, st', ctx'⟩) := by
   simp [Parser.next, h]
 
-theorem renderEntry_ne_nil (e : PEntry) : renderEntry e ≠ [] := by
-  cases e with
-  | blank ws cmt => simp [renderEntry]
-  | record p => simp [renderEntry, renderRecord]
-
 /-- well-formed presentation of an entry -/
 def WFEntry : PEntry → Prop
   | .blank ws cmt => (∀ x ∈ ws, isWs x = true) ∧ commentOK cmt
   | .record p => WFRecord p
+  | .origin ls sep trail cmt =>
+    WFOwnerAbs ls ∧ sep ≠ [] ∧ (∀ x ∈ sep, isWs x = true) ∧ (∀ x ∈ trail, isWs x = true) ∧ commentOK cmt
+  | .ttl n sep trail cmt =>
+    n ≤ 4294967295 ∧ sep ≠ [] ∧ (∀ x ∈ sep, isWs x = true) ∧ (∀ x ∈ trail, isWs x = true) ∧ commentOK cmt
 
 def itemOf (sr : SRecord) : Yield := .item (.record sr.line ⟨sr.owner, sr.ttl, sr.cls, sr.ty, sr.rdata⟩)
+
+/-- stepping over a line that yields nothing, in the run -/
+theorem collect_skip {ctx ctx' : Ctx} (hctx : CtxWF ctx) {text R : List UInt8} {line line' : Nat}
+    (hline : parseLine ctx ⟨text ++ R, line, false⟩ = .ok ((none, ctx'), ⟨R, line', false⟩))
+    (hne : text ≠ []) :
+    collect ⟨false, ⟨text ++ R, line, false⟩, ctx⟩ = collect ⟨false, ⟨R, line', false⟩, ctx'⟩ ∧ CtxWF ctx' := by
+  have hlt : R.length < (text ++ R).length := by
+    have : 0 < text.length := List.length_pos_iff.mpr hne
+    simp; omega
+  have g := parseLine_good hctx ⟨text ++ R, line, false⟩ (by simp [hne])
+  rw [hline] at g
+  exact ⟨collect_of_untilData_eq (untilData_skip hline hlt) g.1.2 (by simp), g.1.2⟩
 
 /-- **Whole files of the subset.**  A file of well-formed entries that denotes the records `srs`
     (all with RDATA valid for class and type) parses to exactly those records, in order, with
@@ -551,11 +705,52 @@ theorem collect_file (es : List PEntry) (hwf : ∀ e ∈ es, WFEntry e) (ctx : C
       obtain ⟨hws, hcmt⟩ := hwf (.blank ws cmt) (by simp)
       simp only [denoteFile] at hden
       have hline := parseLine_blank ctx ws cmt (renderFile es) hws hcmt line
-      have htext : renderFile (.blank ws cmt :: es) = ws ++ (cmt ++ 10 :: renderFile es) := by
+      have htext : renderFile (.blank ws cmt :: es) = (ws ++ cmt ++ [10]) ++ renderFile es := by
         simp [hrf, renderEntry]
-      rw [← ih hwf' ctx hctx (line + 1) srs hden hvalid, htext]
-      exact collect_of_untilData_eq (untilData_blank ctx ws cmt (renderFile es) hws hcmt line) hctx
-        (by simp; omega)
+      rw [htext]
+      have hline' : parseLine ctx ⟨(ws ++ cmt ++ [10]) ++ renderFile es, line, false⟩ =
+          .ok ((none, ctx), ⟨renderFile es, line + 1, false⟩) := by
+        have e : (ws ++ cmt ++ [10]) ++ renderFile es = ws ++ (cmt ++ 10 :: renderFile es) := by simp
+        rw [e]; exact hline
+      obtain ⟨hc, _⟩ := collect_skip hctx hline' (by simp)
+      rw [hc]
+      exact ih hwf' ctx hctx (line + 1) srs hden hvalid
+    | origin ls sep trail cmt =>
+      obtain ⟨hls, hne, hsep, htrail, hcmt⟩ := hwf (.origin ls sep trail cmt) (by simp)
+      simp only [denoteFile] at hden
+      have hline := parseLine_origin ctx ls hls sep trail cmt (renderFile es) hne hsep htrail hcmt line
+      have htext : renderFile (.origin ls sep trail cmt :: es) =
+          ([36, 79, 82, 73, 71, 73, 78] ++ sep ++ renderAbsName ls ++ trail ++ cmt ++ [10]) ++ renderFile es := by
+        simp [hrf, renderEntry]
+      rw [htext]
+      have hline' : parseLine ctx
+          ⟨([36, 79, 82, 73, 71, 73, 78] ++ sep ++ renderAbsName ls ++ trail ++ cmt ++ [10]) ++ renderFile es, line, false⟩ =
+          .ok ((none, { ctx with origin := some (wireName (ls.map labelOctets)) }),
+            ⟨renderFile es, line + labelLines ls + 1, false⟩) := by
+        have e : ([36, 79, 82, 73, 71, 73, 78] ++ sep ++ renderAbsName ls ++ trail ++ cmt ++ [10]) ++ renderFile es =
+            [36, 79, 82, 73, 71, 73, 78] ++ (sep ++ (renderAbsName ls ++ (trail ++ (cmt ++ 10 :: renderFile es)))) := by
+          simp
+        rw [e]; exact hline
+      obtain ⟨hc, hctx'⟩ := collect_skip hctx hline' (by simp)
+      rw [hc]
+      exact ih hwf' _ hctx' _ srs hden hvalid
+    | ttl n sep trail cmt =>
+      obtain ⟨hn, hne, hsep, htrail, hcmt⟩ := hwf (.ttl n sep trail cmt) (by simp)
+      simp only [denoteFile] at hden
+      have hline := parseLine_ttl ctx n hn sep trail cmt (renderFile es) hne hsep htrail hcmt line
+      have htext : renderFile (.ttl n sep trail cmt :: es) =
+          ([36, 84, 84, 76] ++ sep ++ decimal n ++ trail ++ cmt ++ [10]) ++ renderFile es := by
+        simp [hrf, renderEntry]
+      rw [htext]
+      have hline' : parseLine ctx
+          ⟨([36, 84, 84, 76] ++ sep ++ decimal n ++ trail ++ cmt ++ [10]) ++ renderFile es, line, false⟩ =
+          .ok ((none, { ctx with defaultTtl := some (ttlFrom n) }), ⟨renderFile es, line + 1, false⟩) := by
+        have e : ([36, 84, 84, 76] ++ sep ++ decimal n ++ trail ++ cmt ++ [10]) ++ renderFile es =
+            [36, 84, 84, 76] ++ (sep ++ (decimal n ++ (trail ++ (cmt ++ 10 :: renderFile es)))) := by simp
+        rw [e]; exact hline
+      obtain ⟨hc, hctx'⟩ := collect_skip hctx hline' (by simp)
+      rw [hc]
+      exact ih hwf' _ hctx' _ srs (by simpa [toSCtx, ttlFrom, ttlValue] using hden) hvalid
     | record p =>
       have hp := hwf (.record p) (by simp)
       simp only [denoteFile, bind, Option.bind] at hden
@@ -569,18 +764,15 @@ theorem collect_file (es : List PEntry) (hwf : ∀ e ∈ es, WFEntry e) (ctx : C
         | some rest =>
           simp only [hrest, pure, Option.some.injEq] at hden
           subst hden
-          have hsr : sr.cls = sr.cls ∧ sr.ty = p.ty ∧ sr.rdata = p.rdata := by
+          have hsr : sr.ty = p.ty ∧ sr.rdata = p.rdata := by
             obtain ⟨_, _, _, _, _, _, rfl, _⟩ := denoteRecord_some hd
-            exact ⟨rfl, rfl, rfl⟩
+            exact ⟨rfl, rfl⟩
           have hv := hvalid sr (by simp)
-          rw [hsr.2.1, hsr.2.2] at hv
-          obtain ⟨ctx', hline, hsc, _⟩ := parseLine_record ctx p hp line (renderFile es) sr sc' hd hv
+          rw [hsr.1, hsr.2] at hv
+          obtain ⟨ctx', hline, hsc⟩ := parseLine_record ctx hctx p hp line (renderFile es) sr sc' hd hv
           have htext : renderFile (.record p :: es) = renderRecord p ++ renderFile es := by
             simp [hrf, renderEntry]
-          have hne : renderRecord p ++ renderFile es ≠ [] := by
-            have := renderEntry_ne_nil (.record p)
-            simp [renderEntry] at this
-            simp [this]
+          have hne : renderRecord p ++ renderFile es ≠ [] := by simp [renderRecord]
           have hu : untilData ctx ⟨renderRecord p ++ renderFile es, line, false⟩ =
               .ok ((some (.record sr.line ⟨sr.owner, sr.ttl, sr.cls, sr.ty, sr.rdata⟩), ctx'),
                 ⟨renderFile es, line + ownerLines p.owner + 1, false⟩) := by
